@@ -113,16 +113,6 @@ theorem pairs_blocks (bs : List PatRec) :
     rw [this, ih]
     simp [PatRec.hdr]
 
-/-- the patterns that are imported, as laid-out records -/
-def selRecs (a : Acq) (sel : Option (List Int)) : List PatRec :=
-  a.recs.filter (fun b => isSelected sel b.p.seq)
-
-/-- the lines that are imported -/
-def selLines (a : Acq) (sel : Option (List Int)) : List LineRec := (selRecs a sel).flatMap (·.lines)
-
-/-- `On`/`Off` rows of a line as they appear after selection (labelled with the pattern's number) -/
-def LineRec.pair (l : LineRec) : Row × Row := (setSeq l.onRow l.p.seq, setSeq l.offRow l.p.seq)
-
 theorem recs_p (a : Acq) : a.recs.map (·.p) = a.patterns := layPatterns_p 0 a.patterns
 
 theorem mem_recs_p (a : Acq) (b : PatRec) (hb : b ∈ a.recs) : b.p ∈ a.patterns := by
